@@ -283,6 +283,9 @@ SPECS.append({
   H("C18", "internal/metrics", "Monitor", "both", ["monitored"], "0-2 searches, 0-2 database operations, flags symbolic", "totals equal events"),
   H("C18", "internal/metrics", "Monitor3", "thorough", ["monitored"], "3 + 3 events", "same"),
   H("C18", "internal/metrics", "MonitorSameIdentity", "both", ["monitored"], "same (operation, success) twice, every tag order", "one identity, one series"),
+  H("C18", "internal/metrics", "CollectorLocks", "both", ["called"], "get-or-create of 4 metric kinds, GetAllMetrics; one call from an arbitrary warm / cold registry", "lock discipline of the registry (get-or-create re-validates under the write lock): obligation for every schedule, no native replay", panic_freedom=True),
+  H("C18", "internal/metrics", "CounterAtomic", "both", ["called"], "8 methods of Counter / Gauge", "counter words touched only through sync/atomic", panic_freedom=True),
+  H("C18", "internal/metrics", "HistogramLocks", "both", ["called"], "5 methods", "histogram fields only under its mutex", panic_freedom=True),
   H("C18", "internal/metrics", "PercentileGrid", "both", ["observed"], "1-3 observations into chosen buckets; percentile grid 0..100 incl. end points", "monotone percentiles on the grid"),
   H("C18", "internal/metrics", "Histogram1", "thorough", ["observed"], "0-1 symbolic observation, default buckets, symbolic percentiles", "count / sum / buckets / monotone percentiles", timeout_ms=600000),
   H("C18", "internal/metrics", "Histogram2B", "thorough", ["observed"], "1-2 observations, 3 symbolic ascending buckets", "same", timeout_ms=600000),
